@@ -445,6 +445,12 @@ def gen_xlcorpus(outdir, seed, count):
     for i in range(300):
         m.func([], [I32], [("i32.const", i)], export=wild_name(r, used, 3000 + r.randrange(2000), tame=(i % 2 == 0)), nm="n%d" % i)
     emit("m902", m)
+    # pinned module: an import whose module name starts with a digit (reproduces a recorded finding in every run)
+    m = Module()
+    m.import_func("4tune", "get", [I32], [I32])
+    m.memory(1)
+    m.func([I32], [I32], [("local.get", 0), ("call", 0)], export="run")
+    emit("m903", m)
     with open(os.path.join(outdir, "corpus.txt"), "w") as f:
         f.write("\n".join(lines) + "\n")
 
